@@ -389,7 +389,7 @@ def hex64 (n : UInt64) : String :=
 
 def showOutcome (r : Except DErr (List DRow)) : String :=
   match r with
-  | .ok rows => s!"ok {rows.length} {hex64 (bagHash rows)}"
+  | .ok rows => s!"ok {rows.length} {hex64 (bagHash (rows.map (fun r => r.filter (fun kv => !isPseudo kv.1))))}"
   | .error e => showErr e
 
 /-- outcome with the limit kind dropped (which of two failing checks fires first depends on the
